@@ -56,6 +56,43 @@ def build_program(node, seed):
     return T.InverseTransform(build_program(node[1], seed + 17))
 
 
+def build_program_tree(node, seed):
+    """The same construction, returning next to the library object the structure AS WRITTEN: ("leaf", module) / ("comp", [trees]) /
+    ("inv", tree).  The hand-chained reference walks this tree - not the children the library object happens to hold, which a
+    constructor that flattens, copies or re-wraps its parts may have rearranged."""
+    from nflows import transforms as T
+    kind = node[0]
+    if kind == "leaf":
+        cfg = node[1]
+        m = zoo.make(cfg, "randn1" if cfg["fam"] not in ("pointwise_affine", "permutation") else "fresh", env.subseed(seed, cfg))
+        return m, ("leaf", m)
+    if kind == "comp":
+        built = [build_program_tree(c, seed + i + 1) for i, c in enumerate(node[1])]
+        return T.CompositeTransform([b[0] for b in built]), ("comp", [b[1] for b in built])
+    inner, tree = build_program_tree(node[1], seed + 17)
+    return T.InverseTransform(inner), ("inv", tree)
+
+
+def reference_tree(tree, z, ctx, inverse):
+    if tree[0] == "leaf":
+        return (tree[1].inverse if inverse else tree[1].forward)(z, ctx)
+    if tree[0] == "comp":
+        tot = z.new_zeros(z.shape[0])
+        for t in (reversed(tree[1]) if inverse else tree[1]):
+            z, l = reference_tree(t, z, ctx, inverse)
+            tot = tot + l
+        return z, tot
+    return reference_tree(tree[1], z, ctx, not inverse)
+
+
+def tree_leaves(tree):
+    if tree[0] == "leaf":
+        return [tree[1]]
+    if tree[0] == "comp":
+        return [m for t in tree[1] for m in tree_leaves(t)]
+    return tree_leaves(tree[1])
+
+
 def skeleton(node):
     if node[0] == "leaf":
         return node[1]["fam"][:4]
@@ -307,11 +344,21 @@ def run_case(case):
     prog = case["prog"]
     D, nctx = case["D"], case["ctx"]
     try:
-        model = build_program(prog, case["seed"])
+        model, tree = build_program_tree(prog, case["seed"])
     except Exception as e:
         r.inconc("program construction failed: %r" % (e,))
         return r.done()
     model.eval()
+    # module-level operations on the outermost wrapper reach every transform it was built from (they are its sub-modules): mode
+    # switches here, parameters / state dict below - a wrapped transform that is only referenced stays in training mode, keeps its
+    # dtype and is missing from checkpoints
+    leaves_ = tree_leaves(tree)
+    r.count("wrapper_reach_checks")
+    if any(m_.training for m_ in leaves_):
+        r.viol("construct", "eval() on the outermost wrapper does not reach a transform it was built from", skeleton=skeleton(prog))
+    own_ = {id(p_) for p_ in model.parameters()} | {id(b_) for b_ in model.buffers()}
+    if any(id(t_) not in own_ for m_ in leaves_ for t_ in list(m_.parameters()) + list(m_.buffers())):
+        r.viol("construct", "parameters / buffers of a wrapped transform are not among those of the outermost wrapper", skeleton=skeleton(prog))
     if isinstance(model, T.CompositeTransform) and len(model._transforms) >= 2:
         # the constructor documents "an iterable of Transform objects": a generator / iterator / map must give the same
         # composite as the list (a second pass over a one-shot iterable finds it empty)
@@ -347,7 +394,7 @@ def run_case(case):
         inv = direction == "inverse"
         try:
             with torch.no_grad():
-                ref_out, ref_lad = reference(model, x, ctx, inv)
+                ref_out, ref_lad = reference_tree(tree, x, ctx, inv)
         except Exception as e:
             # a part rejects the value (e.g. a float32-only part in the mixed world): the wrapper must then fail too,
             # it is not this check's business
